@@ -740,6 +740,8 @@ class Extractor:
         self.functions.append(finfo)
         if it.body is None:
             raise Unsupported("function %s without body" % q)
+        finfo['skeleton'] = hashlib.sha256(skeleton(it.body).encode()).hexdigest()[:16]
+        finfo['skeleton_text'] = skeleton(it.body)[:4000]
         edits = []
         for (s, e, text) in it.attrs:
             edits.append((s, e, '', None))
@@ -1146,6 +1148,44 @@ class Extractor:
             else:
                 edits.append((cl.bar2.end, cl.bar2.end, ' ' + sig + ' { ' + bind + (('\n' + hint + '\n') if hint else ''), origin_fn(p, ln - 1)))
                 edits.append((b1, b1, ' }', {'kind': 'rule', 'rule': 'R5'}))
+
+
+SKEL_KW = {'if', 'else', 'match', 'for', 'while', 'loop', 'return', 'break', 'continue', 'let', 'in'}
+
+
+def skeleton(body_group):
+    """Control-flow / call skeleton of a function body: keywords, `?`, match arms, names of called functions, methods and macros - and nothing else (no operands,
+    fields, literals, operators, local names).  A change that leaves the skeleton alone is confined to expressions; one that alters it restructures the function."""
+    toks = flat_tokens([body_group])
+    out = []
+    n = len(toks)
+    for i, t in enumerate(toks):
+        x = t.text
+        if x in SKEL_KW:
+            out.append(x)
+        elif x == '?':
+            out.append('?')
+        elif x == '=>':
+            out.append('=>')
+        elif x == '!' and i > 0 and toks[i - 1].kind == 'ident' and i + 1 < n and toks[i + 1].text in ('(', '[', '{'):
+            out.append('macro:' + toks[i - 1].text)
+        elif x == '(' and i > 0 and toks[i - 1].kind == 'ident' and toks[i - 1].text not in SKEL_KW and not (i > 1 and toks[i - 2].text == 'fn'):
+            out.append('call:' + toks[i - 1].text)
+        elif x == '(' and i > 0 and toks[i - 1].text == '>' :
+            # turbofish call  name::<T>(..): find the identifier before `::<`
+            j = i - 1
+            depth = 0
+            while j >= 0:
+                if toks[j].text == '>':
+                    depth += 1
+                elif toks[j].text == '<':
+                    depth -= 1
+                    if depth == 0:
+                        break
+                j -= 1
+            if j >= 2 and toks[j - 1].text == '::' and toks[j - 2].kind == 'ident':
+                out.append('call:' + toks[j - 2].text)
+    return ' '.join(out)
 
 
 class FakeGroup:
